@@ -23,7 +23,7 @@ TRUSTED = [
     "modelled, not verified: parser (oracle), redirect-rule lookup match_redirect (oracle here; modelled in the C07/C09 package), the tools' own option grammars and sed/awk script languages (only tested by execution)",
 ]
 
-REAL_TOOLS = ["tee", "sort", "sed", "awk", "iconv", "find", "cat", "mkdir", "touch"]
+REAL_TOOLS = ["tee", "sort", "sed", "awk", "iconv", "find", "cat", "mkdir", "touch", "env"]
 
 OPS = [">", ">>", ">|", "&>", "&>>", ">&", "<>", "<", "2>", "2>>", "1>", "3>", "3>>", "10>", "{v}>", "{v}>>", "{v}<>", "2>|", "1>&", "2<>"]
 TARGETS = [  # (spelling, expectation class) ; @J@ is the jail directory
@@ -34,6 +34,11 @@ TARGETS = [  # (spelling, expectation class) ; @J@ is the jail directory
     ('"&2"', "ungranted"), ("2", "ungranted"), ("out/$(ls)", "ungranted"),
     # a quoted or escaped ~ is not the home directory (which the configuration grants): the file is ./~/q
     ('"~/q"', "ungranted"), ("'~/q'", "ungranted"), ("\\~/q", "ungranted"), ('"~"/q', "ungranted"), ("~/q", "granted"),
+    # words bash rewrites before it opens the file: read as text they lie in sub/out/ (granted), expanded they name ./eN
+    ("sub/out/$'..'/../e1", "rewritten"), ('sub/out/$".."/../e2', "rewritten"), ("sub/out/${nope:-..}/../e3", "rewritten"),
+    ("sub/out/${nope-..}/../e4", "rewritten"), ("sub/out/$'\\x2e\\x2e'/../e5", "rewritten"), ("sub/out/$DD/../e6", "rewritten"),
+    ("sub/out/`printf ..`/../e7", "rewritten"), ("sub/out/$(printf ..)/../e8", "rewritten"), ("sub/out/../../[f]", "rewritten"),
+    ("sub/out/$((1))", "rewritten"), ("out/${#nope}", "rewritten"), ('"sub/out/$DD/../e9"', "rewritten"),
 ]
 NODES = [
     ("simple", "ls {R}"), ("simple-pre", "{R} ls"), ("only-redirect", "{R}"), ("brace", "{ ls; } {R}"), ("subshell", "( ls ) {R}"),
@@ -58,6 +63,7 @@ CD_SEQS = [
     "while cd sub && ls; do ls > out/g; done", "select d in a b; do cd sub; ls > out/g; done <<< 1",
 ]
 TOOLS = [  # programs using the file-writing options Dippy models (stdin from a file so nothing blocks)
+    "cat f | env -C sub tee {T}", "cat f | env --chdir=sub tee {T}", "cat f | env --chdir sub tee -a {T}", "cat f | env -iC sub tee {T}",
     "cat f | tee {T}", "cat f | tee -a {T}", "cat f | tee -- {T}", "cat f | tee out/g {T}", "cat f | tee -i {T}",
     "sort -o {T} f", "sort -o{T} f", "sort --output={T} f", "sort --output {T} f", "sort -r -o {T} f", "sort -ro {T} f", "sort f -o {T}",
     "sort f --ou={T}", "sort -u f",
@@ -69,7 +75,9 @@ TOOLS = [  # programs using the file-writing options Dippy models (stdin from a 
     "iconv -f utf8 -t latin1 -o {T} f", "iconv -o{T} f", "iconv --output={T} f", "iconv --output {T} f", "iconv -f utf8 f",
     "find . -name f -fprint {T}", "find . -name f -fprint0 {T}", "find . -name f -fls {T}", "find . -name f -fprintf {T} %p", "find . -name f",
 ]
-TOOL_TARGETS = ["out/g", "nogrant", "secret/s", "@J@/out/f", "out/../escape", "-"]
+TOOL_TARGETS = ["out/g", "nogrant", "secret/s", "@J@/out/f", "out/../escape", "-", "only/t5",
+                # rewritten by bash before the tool sees them (see TARGETS)
+                "sub/out/$'..'/../t1", "sub/out/{a,../../t2}", "sub/out/${nope:-..}/../t3", "sub/out/$DD/../t4"]
 
 
 def programs(tier, rng):
@@ -178,7 +186,7 @@ def run(tier, seed, replay=None):
             if idx % 41 == 0:
                 out.sample({"position": pos, "program": text, "verdict": impl})
         from . import funcs
-        funcs.run_ties(out, model, ["strip_fd_prefix"], tier, rng, an)
+        funcs.run_ties(out, model, ["strip_fd_prefix", "written_rule"], tier, rng, an)
         model.close()
         # the two hypotheses of theorem C02_cd_tracking_sound about the resolution oracle, checked on the real
         # _resolve_cd_target: absolute / home targets lead to the same place from anywhere; a relative target
